@@ -96,6 +96,8 @@ class Scheduler:
         # hot-spot state
         self._hot_plan = list(self.params.get("plan", []))  # [(func, nth), ...]
         self._sticky_p = self.params.get("p", 0.03)
+        self._parked = False
+        self.park_hits = 0
 
     # -- setup -----------------------------------------------------------------------------------
     def spawn(self, fn):
@@ -272,8 +274,30 @@ class Scheduler:
         if must_switch:
             if s == "pct":
                 return max(runnable, key=lambda w: self._prio[w.idx])
+            if s == "park" and self._parked:
+                # the parked thread comes back only when nobody else can run
+                rest = [w for w in runnable if w.idx != self.params.get("victim", 0) % len(self.workers)]
+                if rest:
+                    return rest[rng.randrange(len(rest))]
             return runnable[rng.randrange(len(runnable))]
         if not others:
+            return cur
+        if s == "park":
+            # one thread is stopped at a chosen step of ITS OWN and stays parked until every other thread has finished or
+            # blocked ("A is in the middle of an operation while B runs a whole one"), then it resumes
+            v = self.params.get("victim", 0) % len(self.workers)
+            vw = self.workers[v]
+            if cur is vw and not self._parked and cur.steps >= self.params.get("at", 1):
+                self._parked = True
+                self.park_hits += 1
+                return others[rng.randrange(len(others))]
+            if self._parked and cur is not vw:
+                rest = [w for w in others if w is not vw]
+                if rng.random() < self._sticky_p and rest:
+                    return rest[rng.randrange(len(rest))]
+                return cur
+            if rng.random() < self._sticky_p:
+                return others[rng.randrange(len(others))]
             return cur
         if s == "uniform":
             return runnable[rng.randrange(len(runnable))]
